@@ -68,4 +68,41 @@ def transitionStatus (r : Rules) (status idle : Status) (pending : Pending) (ns 
       | none => none
     | none => some (getStatus r s' r.busy)
 
+/-! ### `get_status` with its cache (`statusMap`, states.py 104-135)
+
+`HasStates.get_status(statefunc, default_code)` looks the name of the state function up in `self.statusMap`; on a miss
+it takes the status attached to the method (or to the method of the same name of a base class — here: `statusOf`) and
+stores *that* (also `None`) in the cache; only then, when nothing is attached and a default code is given, the status is made
+up from the default.  The made-up status is never stored: what a lookup returns depends on its arguments only, not on
+the lookups before (`Props/C14.lean: status_independent_of_history`) — which is why the rest of the model uses the pure
+`getStatus` / `statusOf`. -/
+
+abbrev StatusCache := List (Sid × Option Status)
+
+/-- `self.statusMap[name]` (`none`: `KeyError`) -/
+def cacheGet (c : StatusCache) (s : Sid) : Option (Option Status) := (c.find? (fun p => p.1 == s)).map (·.2)
+
+/-- the part after the lookup: `if status is None and default_code is not None: status = default_code, name…` -/
+def withDefault (r : Rules) (s : Sid) (st : Option Status) (dflt : Option Nat) : Option Status :=
+  match st, dflt with
+  | none, some d => some (d, r.label s)
+  | st, _ => st
+
+/-- `get_status(statefunc, default_code)` for a state function: the result and the cache afterwards -/
+def getStatusCached (r : Rules) (c : StatusCache) (s : Sid) (dflt : Option Nat) : Option Status × StatusCache :=
+  match cacheGet c s with
+  | some v => (withDefault r s v dflt, c)
+  | none => (withDefault r s (r.statusOf s) dflt, (s, r.statusOf s) :: c)
+
+/-- the same without cache -/
+def getStatusOpt (r : Rules) (s : Sid) (dflt : Option Nat) : Option Status := withDefault r s (r.statusOf s) dflt
+
+/-- a sequence of lookups on one module instance: the results and the cache afterwards -/
+def lookups (r : Rules) : StatusCache → List (Sid × Option Nat) → List (Option Status) × StatusCache
+  | c, [] => ([], c)
+  | c, (s, d) :: rest =>
+    let a := getStatusCached r c s d
+    let b := lookups r a.2 rest
+    (a.1 :: b.1, b.2)
+
 end Frappy.States
